@@ -124,7 +124,7 @@ def PC(n, **kw):
 
 PC_GLUE = [PC("pc_rollback_and_save_dense", unwindset={"drop_glue": 2}), PC("pc_prediction_gate", unwindset={"drop_glue": 2})]
 PC_SPARSE = [PC("pc_rollback_and_save_sparse", unwindset={"drop_glue": 2})]
-PC_ADJUST = [PC(n, unwindset={"drop_glue": 2, "verif_q": 9}) for n in names_in("sessions__p2p_session@calls.rs", "pc_adjust_.*")]
+PC_ADJUST = [PC(n, unwindset={"drop_glue": 2, "verif_q": 9}, timeout=1800) for n in names_in("sessions__p2p_session@calls.rs", "pc_adjust_.*")]
 PC_LOCKSTEP = [PC("pc_lockstep_frame", unwindset={"drop_glue": 2, "verif_q": 9})]
 PC_DELAY = [PC("pc_delay_1_to_0", unwindset={"drop_glue": 2, "verif_q": 9}, timeout=1200)]
 Q_DELAY2 = [Q("q_delay_twice_1_2_2_control"), Q("q_delay_twice_2_0_0_control"),
@@ -139,7 +139,7 @@ PC_CONF = [PC(n) for n in ["pc_confirmed_frame_min_n2", "pc_confirmed_frame_min_
 PC_DISC = [PC("pc_disconnect_player_contract"), PC("pc_disconnected_event")]
 PC_EVENTS = [PC("pc_event_forwarding_and_cap"), PC("pc_wait_recommendation_respects_cap"), PC("pc_running_iff_all_synchronized")]
 PC_WAIT = [PC("pc_wait_recommendation_gate")]
-PC_CHECKSUM = [PC(n, mem=12) for n in names_in("sessions__p2p_session@calls.rs", "pc_checksum_send_gate_.*")] + [PC("pc_checksum_compare")]
+PC_CHECKSUM = [PC(n, mem=12, timeout=1500) for n in names_in("sessions__p2p_session@calls.rs", "pc_checksum_send_gate_.*")] + [PC("pc_checksum_compare")]
 PC_MISUSE = [PC("pc_misuse_errors"), PC("pc_set_delay_wrong_handle"), PC("pc_advance_not_synchronized"), PC("pc_advance_input_missing")]
 V_ALL = [H(n, "spect", mem=8, timeout=900, unwindset={"SpectatorSession": 9, "drop_glue": 2})
          for n in names_in("sessions__p2p_spectator_session.rs", "v_advance_.*") if n != "v_advance_r21_behind7_catchup9"] + \
@@ -148,7 +148,7 @@ V_ALL = [H(n, "spect", mem=8, timeout=900, unwindset={"SpectatorSession": 9, "dr
 T_UNIT = [H("t_checksum_comparison", "synct", mem=8, timeout=900, unwindset={"extend_with": 9}),
           H("t_checksum_comparison_cd2", "synct", mem=8, timeout=900, unwindset={"extend_with": 9})]
 T_TICK = [H(n, "synct", mem=10, timeout=1200, unwindset={"extend_with": 9, "drop_glue": 2}) for n in ["t_tick_cd2_first_rollback", "t_tick_cd1_steady", "t_tick_cd2_before_rollbacks", "t_tick_cd0"]]
-PC_OUTGOING = [PC("pc_outgoing_drained_any_endpoint_state", unwindset={"drop_glue": 2, "verif_q": 9, "send_ready_outgoing": 3, "next_complete_outgoing": 5})]
+PC_OUTGOING = [PC("pc_outgoing_drained_any_endpoint_state", timeout=1500, unwindset={"drop_glue": 2, "verif_q": 9, "send_ready_outgoing": 3, "next_complete_outgoing": 5})]
 U_NORESUME = [U("u_no_resume_after_disconnect")]
 U_ORDER = [U("u_new_orders_handles")]
 
